@@ -71,15 +71,20 @@ def generate(rng, tier, index):
     kinds = None
     if rng.random() < 0.3:
         kinds = sorted(rng.sample(TF.ALL_KINDS, rng.randint(3, 8)))
+    # line terminators per resource: LF / CRLF, with or without a terminator
+    # on the last line
+    eol = {u: TF.eol_choice(rng) for u in sorted(uni["res"])}
     return {"prop": ID, "schema_xml": xml, "ir": ir, "uni": uni, "mode": mode,
-            "kinds": kinds}
+            "kinds": kinds, "eol": eol}
 
 
-def _load(schema, world, res, top, mode):
-    world.store = {u: TF.join(ls) for u, ls in res.items()}
+def _load(schema, world, res, top, mode, eol=None):
+    eol = eol or {}
+    world.store = {u: TF.join(ls, *eol.get(u, ("\n", True)))
+                   for u, ls in res.items()}
     if mode == "url":
         return ZConfig.loadConfig(schema, top)
-    text = TF.join(res[top])
+    text = world.store[top]
     if mode == "file+url":
         return ZConfig.loadConfigFile(schema, io.StringIO(text), top)
     return ZConfig.loadConfigFile(schema, io.StringIO(text))
@@ -131,7 +136,9 @@ def execute(plan):
         schema = so["schema"]
         base_res = TF.res_texts(uni)
         w.begin_op("baseline")
-        bo = ops.config_outcome(lambda: _load(schema, w, base_res, top, mode))
+        eol = plan.get("eol")
+        bo = ops.config_outcome(
+            lambda: _load(schema, w, base_res, top, mode, eol))
         out["evaluations"] += 1
         if not bo["ok"]:
             out["waste"] += 1
@@ -145,7 +152,8 @@ def execute(plan):
         for inj in injs:
             res = TF.apply(base_res, inj)
             w.begin_op("inject")
-            o = ops.config_outcome(lambda: _load(schema, w, res, top, mode))
+            o = ops.config_outcome(
+                lambda: _load(schema, w, res, top, mode, eol))
             out["evaluations"] += 1
             if o["ok"]:
                 out["waste"] += 1
@@ -164,6 +172,7 @@ def execute(plan):
             for u in sorted(res):
                 h.update(u.encode())
                 h.update(TF.join(res[u]).encode())
+                h.update(repr((eol or {}).get(u)).encode())
             out["digests"].append(h.hexdigest()[:16])
             for clause, detail in check(inj, o, top, mode):
                 focused = dict(plan)
